@@ -216,6 +216,17 @@ CHECKS = {
         "jobs": [{"pkg": "c18sync", "run": "TestMap|TestWatchable|TestFuture$|TestLazy", "kinds": ["map", "watchable-seq", "watchable-conc", "future", "lazy"], "scale_thorough": 10, "shards_thorough": 16, "replay_reps": 20},
                  {"pkg": "c18sync", "run": "TestFutureRace|TestLazy|TestWatchableSequential", "race": True, "kinds": ["future-race"], "scale_thorough": 5, "shards_thorough": 4, "replay_reps": 20}],
     },
+    "C17": {
+        "level": "exploration",
+        "level_text": ("Generated fake-clock timelines: Do/Periodic/Trigger/PeriodicOrTrigger registrations at generated times (some after the stop, some racing with it from other goroutines), f run times shorter and longer than the interval, "
+                       "trigger calls singly and in bursts (during a run, right after one), Stop/StopAndWait from 1-3 goroutines or parent-context cancellation, then a 30 s observation tail; the run log is judged: nothing running when StopAndWait returns and "
+                       "nothing starting afterwards, no overlapping runs of one registration, every trigger made comfortably before the stop is followed by a complete run that began after it, periodic registrations keep running, contexts are cancelled by the stop"),
+        "level_note": "Interleavings come from generated times (ties at the same fake instant race for real) and repetition. The trigger obligation is only demanded for calls at least 2 x run-time before the stop, the periodic bound is deliberately loose.",
+        "technique": "property-based testing (rapid) of generated timelines in testing/synctest bubbles; run-log invariants",
+        "rule": ("plans: 1-5 registrations, 0-12 trigger events, one stop; non-trivial = a trigger call landed while its function was running, or a registration raced with the stop; distinct = distinct plan JSON; R=3/10"),
+        "assumptions": ["testing/synctest", "rapid v1.3.0; go1.26.8"],
+        "jobs": [{"pkg": "c17group", "kinds": ["group"], "scale_thorough": 10, "shards_thorough": 16, "replay_reps": 30}],
+    },
     "C04": {
         "level": "exploration",
         "level_text": ("Model-based property testing: thousands of generated operation histories (macro-ops reach wrapped, full, "
